@@ -1,20 +1,110 @@
 package c04
 
 // pinned regression witnesses: histories that failed on the pinned tree (see /verif/inbox/C04-*.md and
-// known-findings.d/C04.json).  They run first in every tier.
+// known-findings.d/C04.json).  They run first in every tier; index -k is pinned[k-1].
 var pinned = []Case{
-	// setForeignSym compares the receiver with the wrong object: Reflect.set(D, sym, 1, T) with T = D's prototype
-	// must create the property on T (the receiver); goja writes it to T's prototype.
+	// -1 setForeignSym compares the receiver with the wrong object: Reflect.set(D, sym, 1, T) with T = D's prototype
+	// must create the property on T (the receiver); goja wrote it to T's prototype.
 	{Mode: "seq", Kind: "plain", Keys: []string{"S1", "a", "7"}, Twin: "issuer", TSeed: 1, Ops: []Op{
 		{Op: "set", Obj: "D", Key: "S1", Val: "1", Recv: "T", Iss: "reflect"},
 	}},
-	// String exotic [[DefineOwnProperty]] on an own index with the same value is compatible → true
+	// -2 String exotic [[DefineOwnProperty]] on an own index with the same value is compatible → true
 	{Mode: "seq", Kind: "string", Keys: []string{"0", "a", "length"}, Twin: "issuer", TSeed: 1, Ops: []Op{
 		{Op: "define", Obj: "T", Key: "0", Mask: 1, Val: "sa", Iss: "reflect"},
 	}},
-	// lazily materialised function `prototype`: own-key order depends on the read history
+	// -3 lazily materialised function `prototype`: own-key order depends on the read history
 	{Mode: "lazy", Kind: "lazy", Lazy: &LazyCase{
 		A: []LazyStmt{{Src: "f0.prototype", Read: true}, {Src: "f0.x = 1"}},
 		B: []LazyStmt{{Src: "f0.x = 1"}},
+	}},
+	// -4 a non-configurable accessor turned into a data property by {writable:false}
+	{Mode: "seq", Kind: "plain", Keys: []string{"a", "S1", "7"}, Twin: "issuer", TSeed: 1, Ops: []Op{
+		{Op: "define", Obj: "T", Key: "a", Mask: 4, Get: "G1", Iss: "reflect"},
+		{Op: "define", Obj: "T", Key: "a", Mask: 2, Flags: 0, Iss: "reflect"},
+	}},
+	// -5 a non-configurable data property turned into an accessor by {get: undefined}
+	{Mode: "seq", Kind: "plain", Keys: []string{"b", "S1", "7"}, Twin: "issuer", TSeed: 1, Ops: []Op{
+		{Op: "define", Obj: "T", Key: "b", Mask: 1, Val: "1", Iss: "reflect"},
+		{Op: "define", Obj: "T", Key: "b", Mask: 4, Get: "u", Iss: "reflect"},
+	}},
+	// -6 Reflect.deleteProperty on a non-configurable array element converts the array to a string
+	{Mode: "seq", Kind: "dense", Keys: []string{"0", "a", "length"}, Twin: "issuer", TSeed: 1, Ops: []Op{
+		{Op: "define", Obj: "T", Key: "0", Mask: 32, Flags: 0, Iss: "reflect"},
+		{Op: "delete", Obj: "T", Key: "0", Iss: "reflect"},
+	}},
+	// -7 a failing strict delete runs the @@toStringTag getter (its exception replaces the TypeError)
+	{Mode: "seq", Kind: "plain", Keys: []string{"a", "@@toStringTag", "7"}, Twin: "issuer", TSeed: 1, Ops: []Op{
+		{Op: "define", Obj: "T", Key: "a", Mask: 1, Val: "1", Iss: "reflect"},
+		{Op: "define", Obj: "T", Key: "@@toStringTag", Mask: 4, Get: "GT", Iss: "reflect"},
+		{Op: "delete", Obj: "T", Key: "a", Iss: "jss"},
+	}},
+	// -8 Object.setPrototypeOf on a non-extensible object converts it to a string for the error message
+	{Mode: "seq", Kind: "plain", Keys: []string{"a", "S1", "7"}, Twin: "issuer", TSeed: 1, Ops: []Op{
+		{Op: "preventExtensions", Obj: "T", Iss: "reflect"},
+		{Op: "setProto", Obj: "T", Val: "U", Iss: "object"},
+	}},
+	// -9 DynamicObject: defineProperty without [[Value]] hands nil to the handler (ownKeys lists a key without descriptor)
+	{Mode: "seq", Kind: "dynobj", Keys: []string{"a", "b", "0"}, Twin: "issuer", TSeed: 1, Ops: []Op{
+		{Op: "define", Obj: "T", Key: "0", Mask: 16, Flags: 2, Iss: "reflect"},
+	}},
+	// -10 Go slice wrapper: own 'length' is not listed by ownKeys
+	{Mode: "seq", Kind: "goslice", Keys: []string{"length", "0", "a"}, Twin: "issuer", TSeed: 1, Ops: []Op{
+		{Op: "has", Obj: "T", Key: "length", Iss: "js"},
+	}},
+	// -11 mapped arguments: a non-enumerable mapped element is still listed by Object.keys
+	{Mode: "seq", Kind: "margs", Keys: []string{"0", "1", "length"}, Twin: "issuer", TSeed: 1, Ops: []Op{
+		{Op: "define", Obj: "T", Key: "0", Mask: 16, Flags: 0, Iss: "reflect"},
+		{Op: "keys", Obj: "T", Iss: "object"},
+	}},
+	// -12 assignment to a non-writable array length converts the value first (RangeError in sloppy mode)
+	{Mode: "seq", Kind: "dense", Keys: []string{"length", "0", "a"}, Twin: "issuer", TSeed: 1, Ops: []Op{
+		{Op: "define", Obj: "T", Key: "length", Mask: 2, Flags: 0, Iss: "reflect"},
+		{Op: "set", Obj: "T", Key: "length", Val: "V1", Iss: "js"},
+	}},
+	// -13 Array.prototype: an indexed assignment handled by an inherited setter raises length
+	{Mode: "seq", Kind: "arrayproto", Keys: []string{"7", "length", "a"}, Twin: "issuer", TSeed: 1, Ops: []Op{
+		{Op: "setProto", Obj: "T", Val: "P1", Iss: "object"},
+		{Op: "define", Obj: "P1", Key: "7", Mask: 12, Get: "G1", Set: "St1", Iss: "object"},
+		{Op: "set", Obj: "T", Key: "7", Val: "1", Iss: "jss"},
+	}},
+	// -14 reflect map wrapper: an entry reported non-configurable is deleted
+	{Mode: "seq", Kind: "gorefmap", Keys: []string{"a", "b", "0"}, Twin: "issuer", TSeed: 1, Ops: []Op{
+		{Op: "delete", Obj: "T", Key: "a", Iss: "reflect"},
+	}},
+	// -15 length = 0 over a non-configurable element defined during the dense->sparse transition
+	{Mode: "seq", Kind: "dense", Keys: []string{"5000", "length", "a"}, Twin: "issuer", TSeed: 1, Ops: []Op{
+		{Op: "define", Obj: "T", Key: "5000", Mask: 1, Val: "1", Iss: "reflect"},
+		{Op: "set", Obj: "T", Key: "length", Val: "0", Iss: "reflect"},
+	}},
+	// -16 sparse array: truncation to exactly the index of a non-configurable element deletes it
+	{Mode: "seq", Kind: "sparse", Keys: []string{"7", "length", "a"}, Twin: "issuer", TSeed: 1, Ops: []Op{
+		{Op: "define", Obj: "T", Key: "7", Mask: 1, Val: "s7", Iss: "reflect"},
+		{Op: "set", Obj: "T", Key: "length", Val: "s7", Iss: "reflect"},
+	}},
+	// -17 DynamicArray: a['7'] does not reach the prototype although a[7] does (key spelling)
+	{Mode: "seq", Kind: "dynarr", Keys: []string{"7", "a", "0"}, Twin: "spelling", TSeed: 1, Ops: []Op{
+		{Op: "setProto", Obj: "T", Val: "P1", Iss: "reflect"},
+		{Op: "define", Obj: "P1", Key: "7", Mask: 51, Val: "t", Flags: 7, Iss: "object"},
+		{Op: "get", Obj: "T", Key: "7", Num: true, Iss: "js"},
+	}},
+	// -18 map[string]interface{} wrapper: Reflect.set with an integer key and a foreign receiver ignores the own entry
+	{Mode: "seq", Kind: "gomap", Keys: []string{"1", "a", "b"}, Twin: "spelling", TSeed: 1, Ops: []Op{
+		{Op: "setProto", Obj: "T", Val: "P1", Iss: "reflect"},
+		{Op: "define", Obj: "P1", Key: "1", Mask: 12, Get: "G1", Set: "St1", Iss: "object"},
+		{Op: "define", Obj: "T", Key: "1", Mask: 1, Val: "0", Iss: "object"},
+		{Op: "set", Obj: "T", Key: "1", Num: true, Val: "2.5", Recv: "D", Iss: "reflect"},
+	}},
+	// -19 Go slice wrapper: an element reported non-configurable vanishes when length shrinks (listed known finding)
+	{Mode: "seq", Kind: "goslice", Keys: []string{"0", "1", "a"}, Twin: "issuer", TSeed: 1, Ops: []Op{
+		{Op: "set", Obj: "T", Key: "length", Val: "1", Iss: "reflect"},
+	}},
+	// -21 is appended below (keep the order: indices are referenced by known-findings.d/C04.json)
+	// -20 DynamicObject: a prototype cycle is rejected (on the pinned tree the next lookup overflowed the Go stack)
+	{Mode: "seq", Kind: "dynobj", Keys: []string{"a", "b", "0"}, Twin: "issuer", TSeed: 1, Ops: []Op{
+		{Op: "setProto", Obj: "T", Val: "D", Iss: "reflect"},
+	}},
+	// -21 Object.seal on a Go slice wrapper overwrites the elements (descriptor without [[Value]] stored as undefined)
+	{Mode: "seq", Kind: "goslice", Keys: []string{"0", "1", "a"}, Twin: "issuer", TSeed: 1, Ops: []Op{
+		{Op: "seal", Obj: "T", Iss: "object"},
 	}},
 }
